@@ -138,6 +138,7 @@ type sim struct {
 
 	cut           bool // the case ends here (state after a known finding is not explored)
 	stalled       bool
+	stallSub      event.Subscription
 	baselineStuck map[string]bool
 	avoidDelete   bool
 }
@@ -260,6 +261,9 @@ func (s *sim) boot() {
 func (s *sim) joinLate(i int) {
 	for k, spec := range s.c.Subs {
 		if s.subs[k] == nil && spec.Join <= i {
+			if spec.Stall && spec.Join > 0 && s.stallSub == nil {
+				s.stallBus()
+			}
 			s.subs[k] = s.openBus(spec)
 			if spec.Join > 0 {
 				s.st.label("late-subscriber")
@@ -269,6 +273,50 @@ func (s *sim) joinLate(i int) {
 			}
 		}
 	}
+}
+
+const fillerName = event.Name("verif-filler")
+
+// stallBus blocks the bus: a subscriber that is not read gets more events than its buffer holds, so the bus
+// waits in the middle of a delivery with further events queued behind it.
+func (s *sim) stallBus() {
+	sub, err := s.n.DB.Events().Subscribe(fillerName)
+	if err != nil {
+		hx.Harnessf("subscribe: %v", err)
+	}
+	// first exactly as many events as the buffer holds (the bus delivers them all and goes idle), then one more, which
+	// the bus picks up from an empty queue and cannot deliver: whatever is published from now on queues up behind it
+	n := cap(sub.Message())
+	for i := 0; i < n; i++ {
+		s.n.DB.Events().Publish(event.NewMessage(fillerName, i))
+	}
+	deadline := time.Now().Add(20 * time.Second)
+	for len(sub.Message()) < n {
+		if time.Now().After(deadline) {
+			hx.Harnessf("the buffer of the stalled subscriber never filled up")
+		}
+		time.Sleep(time.Millisecond)
+	}
+	time.Sleep(5 * time.Millisecond)
+	s.n.DB.Events().Publish(event.NewMessage(fillerName, n))
+	time.Sleep(20 * time.Millisecond)
+	s.n.DB.Events().Publish(event.NewMessage(fillerName, n+1))
+	s.stallSub = sub
+	s.st.label("late-subscriber-joins-while-bus-is-blocked")
+}
+
+// releaseStall lets the blocked subscriber catch up and leave.
+func (s *sim) releaseStall() {
+	if s.stallSub == nil {
+		return
+	}
+	sub := s.stallSub
+	s.stallSub = nil
+	go func() {
+		for range sub.Message() { //nolint:revive
+		}
+	}()
+	s.n.DB.Events().Unsubscribe(sub)
 }
 
 func (s *sim) openBus(spec BusSub) *busSub {
@@ -320,29 +368,64 @@ func (s *sim) openBus(spec BusSub) *busSub {
 
 // syncBus waits until every subscriber has received everything published before the call
 // (the bus is FIFO through one command channel; the sentinel is published last).
-func (s *sim) syncBus() {
-	s.sentSeq++
-	id := s.sentSeq
-	var chans []chan struct{}
-	for _, b := range s.subs {
-		if b == nil {
-			continue
+// syncBus publishes a sentinel event and waits until every subscriber has received it. When a subscriber has not
+// after a short while, a second sentinel follows: delivery to one subscriber is first-in first-out, so a subscriber
+// that receives the second sentinel without the first has LOST an event that was published after its Subscribe call
+// returned (a verdict that does not depend on timing); a subscriber that receives neither within the deadline
+// makes the run inconclusive.
+func (s *sim) syncBus() *hx.Failure {
+	register := func() (uint64, map[int]chan struct{}) {
+		s.sentSeq++
+		id := s.sentSeq
+		chans := map[int]chan struct{}{}
+		for k, b := range s.subs {
+			if b == nil {
+				continue
+			}
+			ch := make(chan struct{})
+			b.mu.Lock()
+			b.waiters[id] = ch
+			b.mu.Unlock()
+			chans[k] = ch
 		}
-		ch := make(chan struct{})
-		b.mu.Lock()
-		b.waiters[id] = ch
-		b.mu.Unlock()
-		chans = append(chans, ch)
+		s.n.DB.Events().Publish(event.NewMessage(sentinelName, id))
+		return id, chans
 	}
-	s.n.DB.Events().Publish(event.NewMessage(sentinelName, id))
-	deadline := time.After(syncDeadline)
-	for _, ch := range chans {
+	_, first := register()
+	soon := time.After(2 * time.Second)
+	pending := map[int]bool{}
+	for k, ch := range first {
 		select {
 		case <-ch:
+		case <-soon:
+			pending[k] = true
+		}
+	}
+	if len(pending) == 0 {
+		return nil
+	}
+	_, second := register()
+	deadline := time.After(syncDeadline)
+	for k := range pending {
+		select {
+		case <-first[k]:
+		case <-second[k]:
+			// the second arrived: the first is either just ahead of it in the subscriber's reader, or lost
+			select {
+			case <-first[k]:
+			case <-time.After(time.Second):
+				select {
+				case <-first[k]:
+				default:
+					return hx.Failf("C20/bus/event-lost", "bus subscriber %d (%+v), whose Subscribe call had returned before, received the second of two events published one after the other and not the first: an event was not delivered to every subscriber", k, s.c.Subs[k])
+				}
+			}
 		case <-deadline:
 			hx.Harnessf("event bus sentinel did not reach every subscriber within %v", syncDeadline)
 		}
 	}
+	// the remaining waiters of the second sentinel are left to be closed when it arrives
+	return nil
 }
 
 func (b *busSub) take() []recEvent {
@@ -415,6 +498,7 @@ func (s *sim) close() {
 	if s.n == nil {
 		return
 	}
+	s.releaseStall()
 	if s.gcancel != nil {
 		s.gcancel()
 		if !s.stalled {
@@ -994,6 +1078,7 @@ func describe(evs []recEvent) string {
 // what every subscriber received since the previous checkpoint with the commits that became
 // part of the store in the same interval.
 func (s *sim) checkpoint(kind string) *hx.Failure {
+	s.releaseStall()
 	// 1. synchronise: GraphQL sentinels first (they are update events, so the bus subscribers
 	//    see them too, after everything the call published), then the bus sentinel.
 	//    Before them, when no explicit transaction is open, one real write per subscription: an
@@ -1005,7 +1090,9 @@ func (s *sim) checkpoint(kind string) *hx.Failure {
 		s.sentinelWrites()
 		sentinels = s.publishGQLSentinels()
 	}
-	s.syncBus()
+	if f := s.syncBus(); f != nil {
+		return f
+	}
 	cands := append(s.unattached, s.tr.scan(s.ctx)...)
 	reach := s.tr.attached(s.ctx)
 	var fresh []*commit
